@@ -4,12 +4,37 @@ SPEC = dict(
     driver='c19_allocfault',
     extra=['ref/ref.c', 'ref/ref_sig.c', 'ref/ref_pdu.c', 'ref/ref_pki.c', 'simnet.c'],
     level='fault_enumeration',
-    rule='placeholder',
-    bounds=dict(quick='placeholder', thorough='placeholder'),
-    technique='exhaustive allocation-fault enumeration',
-    level_text='placeholder',
-    level_note='placeholder',
-    require_outcomes=['fault:error-returned', 'fault:success-inessential'],
-    assumptions=[],
+    rule='Catalogue of 60 operations over all modules (context create / configure; KSI_Signature_parse and parseWithPolicy(EMPTY) of 6 signature forms; '
+         'KSI_SignatureVerifier_verify under the internal, calendar, key, publications-file, user-publication and general policy with a matching anchor, '
+         'KSI_verifySignature with the context\'s own anchors; serialize, clone, identity, getters; aggregation / extension PDU parse + HMAC check, '
+         'aggregation response -> signature; sign / extend request construction; blocking signing over TCP and HTTP; extendTo / extend with record / head / '
+         'KSI_extendSignature over TCP and HTTP; tree builder; signature builder (prepend local chain, re-close); block signer with and without masking; '
+         'async signing and extending over TCP and HTTP with the service inside the operation or surviving it; HA service with two endpoints; publications file '
+         'parse / verify / lookups / receive over HTTP; publication strings both ways; TLV parse + clone + serialize; typed list; data hasher; HMAC). '
+         'For each operation a counting run measures N = SDK allocations made by the part under fault (all SDK allocations go through KSI_malloc / KSI_calloc in base.c, '
+         'compiled onto the harness funnel); then for every i in 1..N the operation is re-run from a fresh state (new context and fixtures, simulated network and clock reset) '
+         'with allocation i returning NULL; in the thorough tier also every pair i<j for operations with N <= 60. One case = one operation and a chunk of 16 consecutive fault '
+         'indices (a crash is attributed to the chunk; the replay names the index), or one first index i with all j>i for pairs. A case is non-trivial when at least one faulted '
+         'run reached the oracle. Every case first repeats the counting run and requires the same N, return code and result as the enumeration (determinism). '
+         'Oracle per injection: sanitizers silent; the fault was injected; the call reports an error (a verification verdict "inconclusive/NA" counts as an error report) '
+         'or reports success with exactly the fault-free result; a sentinel (parse + internal verification + serialization of a known good signature) on the same context gives '
+         'the fault-free result; the same operation repeated without a fault on the same context and setup objects gives the fault-free return code and result; after freeing '
+         'every returned object, the setup objects and the context no SDK allocation is live.',
+    bounds=dict(quick='60 operations; every single fault index where N <= 400, every ceil(N/400)-th index beyond (stride 2 for N up to 800, 6-7 for the block signer); no pairs',
+                thorough='60 operations; every single fault index 1..N (N up to 2696, limit 5000: no operation is strided); all pairs i<j for the 15 operations with N <= 60'),
+    technique='exhaustive allocation-fault enumeration (single faults, and fault pairs for small operations) on the real compiled code under ASan/UBSan with a counting allocator funnel and live-block accounting',
+    level_text='Every allocation index of every catalogue operation is failed in turn on the real code, from an identical fresh state, under ASan + restricted UBSan with exact '
+               'accounting of live SDK blocks; return code, result equality, leak freedom, context usability and repeatability are checked after every injection. This is exhaustive '
+               'over the stated fault space (operation x allocation index) and is the appropriate level for a property that quantifies over crash points of hand-written cleanup code; '
+               'it says nothing about operations or inputs outside the catalogue.',
+    level_note='Trusted: the allocation funnel (only base.c allocates for the SDK; verified by grep: no other malloc/calloc/realloc/strdup in src/ksi), the simulated network / clock / libcurl, '
+               'the reference signature / PDU / PKI builders that produce the fixtures, ASan/UBSan. OpenSSL\'s own allocations are never failed. A crash hides the remaining indices of '
+               'its chunk of 16 until the defect is repaired. Verification verdict NA (inconclusive) under a fault is accepted as an error report.',
+    require_outcomes=['fault:error-returned', 'fault:success-inessential', 'error-code:out-of-memory',
+                      'op:ctx-new-free:error-returned', 'op:verify-key:error-returned', 'op:sign-tcp:error-returned', 'op:sign-http:error-returned',
+                      'op:async-sign-tcp:error-returned', 'op:ha-sign-2-endpoints:error-returned', 'op:block-signer:error-returned', 'op:tree-builder:error-returned',
+                      'op:pubfile-parse:error-returned', 'op:list-typed:error-returned', 'op:extend-nearest-ctx:error-returned'],
+    assumptions=['the failure of one allocation (or of two, for small operations) is the fault model; a failing allocation returns NULL and later allocations succeed again',
+                 'the catalogue inputs are well-formed: error paths taken for malformed inputs are not combined with allocation faults'],
     deadline=dict(quick=900, thorough=2400),
 )
